@@ -569,6 +569,9 @@ def _bind_lifetime(ctx, dataset_descs, lt):
                 elif how == 'isel':
                     dim = sorted(ds.sizes)[0] if ds.sizes else None
                     new = ds.isel({dim: slice(0, None)}) if dim else ds.assign_attrs(note='derived')
+                    # xarray's isel() hands the *same* attrs dict to the new dataset; a later in-place edit of one
+                    # would silently edit the other.  That aliasing is xarray's, not the property's: detach it.
+                    new.attrs = dict(new.attrs)
                 else:
                     new = ds.assign_attrs()
                     new.attrs.pop('title', None)
